@@ -20,6 +20,7 @@ KILLED under the stopped runner; no recovery timeout was needed.
 from __future__ import annotations
 
 import random
+import sys
 from typing import Any
 
 from models.lifecycle import AVAILABLE, FINALS
@@ -39,7 +40,7 @@ LEVEL_TEXT = (
 LEVEL_NOTE = "Trusted: simkit scheduler (signal delivery = the handler runs in the loop thread at a yield point), transition log, broker drain after the run. One runner is stopped; on SQLite a second runner may stay alive (then the stop must still complete). Stop points are sampled by K, not proven complete."
 MINIMIZE = "schedule"
 RULE = (
-    "one run = workload (flat / tree / retrying programs, 1-3 slots) x stop step K x seeded schedule; non-trivial = the stop landed while "
+    "one run = workload (flat / tree / retrying programs, 1-3 slots) x stop step K x seeded schedule (pending-thread strata: late task-thread starts, stop placed on thread-started-still-PENDING, slow stop = a stall before every effect inside _kill_and_reroute); non-trivial = the stop landed while "
     "the runner held at least one claimed, non-final invocation; distinct = distinct (stop site, switch-site hash)."
 )
 ASSUMPTIONS = [
@@ -48,7 +49,7 @@ ASSUMPTIONS = [
 ]
 REAL = ["BaseRunner.run / stop_runner_loop / on_stop", "ThreadRunner._on_stop / _kill_and_reroute / runner_loop_iteration", "orchestrators", "brokers", "DistributedInvocation.run"]
 STUBBED = ["signal delivery", "thread scheduling", "clock", "uuid4"]
-PROBES = ["thread_start_failure", "stop_with_pending", "stop_with_running", "stop_with_waiting_parent", "stop_between_claim_and_thread_start", "stop_idle", "kill_and_reroute", "stop_with_more_threads_than_slots"]
+PROBES = ["thread_start_failure", "stop_with_pending", "stop_with_running", "stop_with_waiting_parent", "stop_between_claim_and_thread_start", "stop_idle", "kill_and_reroute", "stop_with_more_threads_than_slots", "stop_with_started_thread_still_pending"]
 
 
 def plan(tier: str) -> list[dict]:
@@ -57,6 +58,8 @@ def plan(tier: str) -> list[dict]:
         {"stratum": "mem-loop", "runs": 320 if q else 16000, "params": {"stack": "mem", "where": "loop"}, "chunk": 20 if q else 400},
         {"stratum": "mem-any", "runs": 160 if q else 8000, "params": {"stack": "mem", "where": "any"}, "chunk": 10 if q else 200},
         {"stratum": "sqlite-loop", "runs": 128 if q else 6000, "params": {"stack": "sqlite", "where": "loop"}, "chunk": 8 if q else 150},
+        {"stratum": "mem-pending-thread", "runs": 160 if q else 8000, "params": {"stack": "mem", "where": "pending-thread"}, "chunk": 10 if q else 200},
+        {"stratum": "sqlite-pending-thread", "runs": 64 if q else 3000, "params": {"stack": "sqlite", "where": "pending-thread"}, "chunk": 8 if q else 150},
         {"stratum": "sqlite-over-slots", "runs": 96 if q else 4000, "params": {"stack": "sqlite", "where": "over-slots"}, "chunk": 6 if q else 100},
     ]
 
@@ -95,6 +98,13 @@ def run(seed: int, params: dict, replay: dict | None = None) -> dict:
     K = 1 + (idx * 7) % 97 + 97 * ((idx // 97) % 6) if where == "loop" else 1 + (idx * 13) % 1500
     if where == "over-slots":
         K = 1 + (idx * 5) % 60
+    if where == "pending-thread":
+        # the stop lands at the K-th loop-thread step at which a claimed invocation has its task thread but is not RUNNING yet
+        K = 1 + idx % 4
+        slots = rng.choice([2, 3, 3])
+        if kind == "tree":
+            kind = "flat"
+            roots = [gen.gen_prog(rng, names, depth=0, p_fail=0.0, work=(0.01, 0.03, 0.08)) for _ in range(rng.randint(2, 4))]
     schedule = replay.get("schedule") if replay else None
     viol: list[dict] = []
     with Deployment(seed, stack, n_runners, policy=policy, policy_arg=parg, schedule=schedule, max_steps=300_000, max_time=90.0, conf={"max_threads": slots}) as d:
@@ -135,19 +145,63 @@ def run(seed: int, params: dict, replay: dict | None = None) -> dict:
                 sim.bump("probe.stop_between_claim_and_thread_start")
             sim.bump("fault.stop_request")
             sim.log_event("fault-stop", info["site"])
-            if where in ("loop", "over-slots"):
+            if where in ("loop", "over-slots", "pending-thread"):
                 runner.stop_runner_loop(15, None)
             else:
                 runner.running = False
 
         counter = {"n": 0}
+        seen = {"i": 0}
+        cur_status: dict[str, tuple[str, Any]] = {}
+
+        def thread_started_not_running() -> bool:
+            """Some invocation claimed by r1 is still PENDING although its task thread exists (read from the transition log)."""
+            tl = d.w.tlog
+            while seen["i"] < len(tl):
+                e = tl[seen["i"]]
+                cur_status[e["inv"]] = (e["status"], e["owner"])
+                seen["i"] += 1
+            started = {str(k) for k in list(runner.threads)}
+            return any(s == "PENDING" and o == rid and inv in started for inv, (s, o) in cur_status.items())
+
+        slow = {"n": 0}
+        slow_stop = where == "pending-thread" and rng.random() < 0.7
+        stall = rng.choice([0.005, 0.02, 0.04])
+        if where == "pending-thread":
+            # task threads of r1 start late (virtual time), so "thread exists, invocation still PENDING" lasts long enough
+            # to be caught by the stop; with slow_stop every effect inside _kill_and_reroute is preceded by a short stall
+            # of the loop thread, so such a thread can move on between two effects of the stop
+            delays = random.Random(f"{seed}:c11:delay")
+            sim.start_delay = lambda th_: delays.choice([0.0, 0.01, 0.03, 0.06]) if th_.name.startswith("r1/") and th_.name != "r1/main" else 0.0
+
+        def inside(fn: str) -> bool:
+            f = sys._getframe(2)
+            for _ in range(40):
+                if f is None:
+                    return False
+                if f.f_code.co_name == fn:
+                    return True
+                f = f.f_back
+            return False
 
         def hook(th: Any, kind_: str, detail: Any) -> None:
+            if info["stop_at"] is not None and slow_stop and th.name == "r1/main" and slow["n"] < 40 and kind_ in ("sql", "line", "lock-acquire", "clock") and inside("_kill_and_reroute"):
+                slow["n"] += 1
+                if slow["n"] == 1:
+                    sim.bump("fault.slow_stop")
+                sim.sleep(stall)
+                return
             if info["stop_at"] is not None or not runner.running:
                 return
             if where == "loop":
                 if th.name == "r1/main" and th.nyield >= K:
                     do_stop(th, kind_, detail)
+            elif where == "pending-thread":
+                if th.name == "r1/main" and thread_started_not_running():
+                    counter["n"] += 1
+                    if counter["n"] >= K:
+                        sim.bump("probe.stop_with_started_thread_still_pending")
+                        do_stop(th, kind_, detail)
             elif where == "over-slots":
                 if th.name == "r1/main" and len(runner.threads) > runner.max_parallel_slots:
                     counter["n"] += 1
@@ -165,6 +219,9 @@ def run(seed: int, params: dict, replay: dict | None = None) -> dict:
         def runner_main() -> None:
             try:
                 orig_run()
+            except Exception as e:  # noqa: BLE001  an exception escaping run() means the stop sequence was cut short
+                info["run_raised"] = f"{type(e).__name__}: {e}"[:300]
+                info["run_raised_type"] = type(e).__name__
             finally:
                 info["returned_at"] = sim.now
 
@@ -229,6 +286,9 @@ def run(seed: int, params: dict, replay: dict | None = None) -> dict:
         elif sim.abort_reason != "scenario-done":
             common["inconclusive"] = True
         elif info["stop_at"] is not None and info["returned_at"] is not None:
+            if info.get("run_raised"):
+                # "the stop completes": run() must return, not raise out of on_stop
+                viol.append({"signature": f"C11/{stack}/run-raised/{info['run_raised_type']}/kind={kind}", "message": f"run() of the stopped runner raised {info['run_raised']} (stop site {info['site']}, step {K})"})
             if any(e["status"] == "KILLED" for e in w.tlog):
                 st["probe.kill_and_reroute"] = 1
             # read-out after the stop
